@@ -297,6 +297,17 @@ theorem stuck_final (hR : RecvSide hd B f getCount unpack T Inv) (s : Pair β σ
     have : s.rt.finished = true := by rw [hrt, hR.fin _ _ _ hl hf]; simp [hz]
     simp [Pair.final, hso, hro, hchan, hfin, this]
 
+/-- in a final reachable state the receiver stands in front of indices without items, with its invariant -/
+theorem final_acc (s : Pair β σ) (hI : PInv hd B f T Inv s) (hfin : s.final = true) :
+    ∃ (kR : Nat) (isR jsR : List Nat), jsR.length = isR.length ∧ total hd isR = 0 ∧ Inv s.acc kR isR jsR := by
+  obtain ⟨isR, jsR, kR, kS, rS, hl, hf, hrt, hsb, hrb, hacc, hcase⟩ := hI
+  rcases hcase with hA | hB | hC | hD | hE
+  · simp [Pair.final, hA.2.2.2.2.2.1] at hfin
+  · simp [Pair.final, hB.2.2.2.2.2.1] at hfin
+  · simp [Pair.final, hC.2.2.2.1] at hfin
+  · simp [Pair.final, hD.2.2.1] at hfin
+  · exact ⟨kR, isR, jsR, hl, hE.1, hacc⟩
+
 /-- all schedules of one neighbour relation: bounded length, and a schedule that cannot be extended ends in the
     final state -/
 theorem exec_bound (hR : RecvSide hd B f getCount unpack T Inv) : ∀ (acts : List Action) (s s' : Pair β σ),
@@ -383,8 +394,20 @@ theorem recvS_left_lt (h : Handle α) (r : Nat) (rest jrest : List Nat) : ∀ (a
           List.length_append]
         omega
 
-theorem dataSide (h : Handle α) (B f r : Nat) (getCount : Bool) (hg : getCount = true ↔ f = 0) :
-    RecvSide h B f getCount unpackEntries (fun k js is => rcvT h f r k js is) where
+theorem callsOf_allzero (h : Handle α) : ∀ (is js : List Nat), total h is = 0 → callsOf h is js = [] := by
+  intro is
+  induction is with
+  | nil => intro js _; simp
+  | cons i is ih =>
+    intro js ht
+    cases js with
+    | nil => rfl
+    | cons j js => simp at ht; simp [callsOf, ht.1, ih js ht.2]
+
+/-- data phase: `acc` are the calls made so far; together with the calls still owed they are `tgt` -/
+theorem dataSide (h : Handle α) (B f r : Nat) (getCount : Bool) (hg : getCount = true ↔ f = 0) (tgt : List (Call α)) :
+    RecvSide h B f getCount unpackEntries (fun k js is => rcvT h f r k js is)
+      (fun acc _ is js => acc ++ callsOf h is js = tgt) where
   skip := fun k js is => rcvT_skip h f r k js is
   fin := fun k js is hl hf => rcvT_finished h B f r k js is hl hf
   round := by
@@ -410,9 +433,26 @@ theorem dataSide (h : Handle α) (B f r : Nat) (getCount : Bool) (hg : getCount 
     · have : (round1 h B f is).1.length ≠ 0 := by simpa using ha
       simp [rcvT, h0]
       omega
+  roundInv := by
+    intro k js is b acc hl hf _ hb hp hinv
+    obtain ⟨b'', _, heq⟩ := unpackEntries_round h B f r k js is b acc hl hf hb hp
+      (if getCount then total h (round1 h B f is).1 else 0) (by intro h0; simp [hg.2 h0])
+    rw [heq]
+    have hlen : (round1 h B f is).1.length ≤ js.length := by
+      rw [hl]; conv => rhs; rw [← round1_append h B f is]
+      simp
+    have e1 := callsOf_append h (round1 h B f is).1 (js.take (round1 h B f is).1.length) (round1 h B f is).2
+      (js.drop (round1 h B f is).1.length) (by simp [Nat.min_eq_left hlen])
+    rw [round1_append, List.take_append_drop] at e1
+    show (acc ++ callsOf h (round1 h B f is).1 (js.take (round1 h B f is).1.length)) ++
+      callsOf h (round1 h B f is).2 (js.drop (round1 h B f is).1.length) = tgt
+    rw [List.append_assoc, ← e1, hinv]
 
-theorem sizeSide (h : Handle α) (B : Nat) (hB : 0 < B) :
-    RecvSide (sizeHandle h) B 1 false unpackSizes (fun k js _ => sendT 0 k js 1) where
+/-- size phase: `dst` is the size array: the sizes received so far, then zeros; completed it is `tgt` -/
+theorem sizeSide (h : Handle α) (B : Nat) (hB : 0 < B) (tgt : List Nat) :
+    RecvSide (sizeHandle h) B 1 false unpackSizes (fun k js _ => sendT 0 k js 1)
+      (fun dst k is _ => ∃ done : List Nat, dst = done ++ List.replicate is.length 0 ∧ done.length = k ∧
+        done ++ is.map h.size = tgt) where
   skip := fun k js _ => sendT_skip 0 k js 1
   fin := by
     intro k js is hl _
@@ -433,90 +473,170 @@ theorem sizeSide (h : Handle α) (B : Nat) (hB : 0 < B) :
     rw [sizeHandle_total] at ht
     simp [hr1]
     omega
+  roundInv := by
+    intro k js is b dst hl _ _ hb _ hinv
+    obtain ⟨done, hd1, hd2, hd3⟩ := hinv
+    have hr1 : round1 (sizeHandle h) B 1 is = (is.take (min B is.length), is.drop (min B is.length)) := by
+      simp [round1]
+    have hn : min B is.length ≤ is.length := Nat.min_le_right _ _
+    simp only [hr1, unpackSizes, unpackSizeEntries, sendT_left, MessageBuffer.received, hb, hl, sizeHandle_flatMap,
+      Tracker.offset, sendT_index, List.length_take, Nat.min_eq_left hn, List.length_drop]
+    refine ⟨done ++ (is.take (min B is.length)).map h.size, ?_, by simp [hd2, Nat.min_eq_left hn], ?_⟩
+    · have htk : ((is.take (min B is.length)).map h.size).take (min B is.length)
+          = (is.take (min B is.length)).map h.size := List.take_of_length_le (by simp)
+      rw [htk, hd1, ← hd2, writeAt_step done _ is.length (by simpa using hn)]
+      simp [Nat.min_eq_left hn]
+    · rw [← hd3, List.append_assoc, ← List.map_append, List.take_append_drop]
 
 /-! ### the composed system -/
 
 def sysMeasure {β σ : Type} (ss : List (Comp β σ)) : Nat := (ss.map fun x => x.state.measure).sum
 
-/-- over-approximation of the reachable component states -/
-def Good {β σ : Type} (x : Comp β σ) : Prop :=
-  x.cfg.repaired = true ∧ ∃ (B f : Nat) (T : Nat → List Nat → List Nat → Tracker),
-    RecvSide x.cfg.handle B f x.cfg.getCount x.cfg.unpack T ∧ PInv x.cfg.handle B f T x.state
+theorem sysStep_nil {β σ : Type} (i : Nat) (a : Action) : sysStep ([] : List (Comp β σ)) i a = none := by
+  simp [sysStep]
 
-theorem cfg_eta {β σ : Type} (c : PairCfg β σ) (h : c.repaired = true) : c = cfgOf c.handle c.getCount c.unpack := by
-  cases c; simp_all [cfgOf]
+theorem sysStep_zero {β σ : Type} (x : Comp β σ) (ss : List (Comp β σ)) (a : Action) :
+    sysStep (x :: ss) 0 a = (Pair.step x.cfg x.state a).map fun s' => { x with state := s' } :: ss := by
+  simp [sysStep]
 
-theorem sum_set {γ : Type} (g : γ → Nat) : ∀ (l : List γ) (i : Nat) (x y : γ), l[i]? = some x →
-    ((l.set i y).map g).sum + g x = (l.map g).sum + g y := by
-  intro l
-  induction l with
-  | nil => intro i x y h; simp at h
-  | cons z l ih =>
-    intro i x y h
+theorem sysStep_succ {β σ : Type} (x : Comp β σ) (ss : List (Comp β σ)) (i : Nat) (a : Action) :
+    sysStep (x :: ss) (i + 1) a = (sysStep ss i a).map fun ss' => x :: ss' := by
+  simp only [sysStep, List.getElem?_cons_succ]
+  cases ss[i]? with
+  | none => rfl
+  | some y => cases h : Pair.step y.cfg y.state a <;> simp [h]
+
+/-- two lists related position by position -/
+inductive All2 {γ δ : Type} (R : γ → δ → Prop) : List γ → List δ → Prop
+  | nil : All2 R [] []
+  | cons {p x ps xs} : R p x → All2 R ps xs → All2 R (p :: ps) (x :: xs)
+
+/-- a relation between the description `p` of a component and its state that every step preserves -/
+structure Closed {γ β σ : Type} (R : γ → Comp β σ → Prop) : Prop where
+  step : ∀ p x a s', R p x → Pair.step x.cfg x.state a = some s' →
+    R p { x with state := s' } ∧ s'.measure < x.state.measure
+  stuck : ∀ p x, R p x → (∀ a, Pair.step x.cfg x.state a = none) → x.state.final = true
+
+theorem sys_step_rel {γ β σ : Type} {R : γ → Comp β σ → Prop} (hR : Closed R) : ∀ (specs : List γ)
+    (ss ss' : List (Comp β σ)) (i : Nat) (a : Action), All2 R specs ss → sysStep ss i a = some ss' →
+    All2 R specs ss' ∧ sysMeasure ss' < sysMeasure ss := by
+  intro specs ss ss' i a hrel
+  induction hrel generalizing i ss' with
+  | nil => intro hs; simp [sysStep_nil] at hs
+  | @cons p x ps xs hpx hrest ih =>
+    intro hs
     cases i with
-    | zero => simp at h; subst h; simp; omega
+    | zero =>
+      rw [sysStep_zero] at hs
+      cases hst : Pair.step x.cfg x.state a with
+      | none => simp [hst] at hs
+      | some s' =>
+        simp only [hst, Option.map_some, Option.some.injEq] at hs
+        subst hs
+        obtain ⟨h1, h2⟩ := hR.step p x a s' hpx hst
+        refine ⟨All2.cons h1 hrest, ?_⟩
+        simp only [sysMeasure, List.map_cons, List.sum_cons]
+        omega
     | succ i =>
-      have := ih i x y (by simpa using h)
-      simp only [List.set_cons_succ, List.map_cons, List.sum_cons]; omega
-
-theorem sys_step_inv {β σ : Type} (ss ss' : List (Comp β σ)) (i : Nat) (a : Action) (hg : ∀ x ∈ ss, Good x)
-    (hs : sysStep ss i a = some ss') : (∀ x ∈ ss', Good x) ∧ sysMeasure ss' < sysMeasure ss := by
-  unfold sysStep at hs
-  cases hx : ss[i]? with
-  | none => simp [hx] at hs
-  | some x =>
-    simp only [hx] at hs
-    cases hst : Pair.step x.cfg x.state a with
-    | none => simp [hst] at hs
-    | some s' =>
-      simp only [hst, Option.map_some, Option.some.injEq] at hs
-      subst hs
-      have hxm : x ∈ ss := List.mem_of_getElem? hx
-      obtain ⟨hrep, B, f, T, hR, hI⟩ := hg x hxm
-      rw [cfg_eta x.cfg hrep] at hst
-      obtain ⟨hI', hm⟩ := step_inv hR x.state s' a hI hst
-      constructor
-      · intro y hy
-        rcases List.mem_or_eq_of_mem_set hy with hy | hy
-        · exact hg y hy
-        · subst hy; exact ⟨hrep, B, f, T, hR, hI'⟩
-      · have := sum_set (fun x : Comp β σ => x.state.measure) ss i x { x with state := s' } hx
-        simp only [sysMeasure] at this ⊢
+      rw [sysStep_succ] at hs
+      cases hst : sysStep xs i a with
+      | none => simp [hst] at hs
+      | some xs' =>
+        simp only [hst, Option.map_some, Option.some.injEq] at hs
+        subst hs
+        obtain ⟨h1, h2⟩ := ih xs' i hst
+        refine ⟨All2.cons hpx h1, ?_⟩
+        simp only [sysMeasure, List.map_cons, List.sum_cons] at h2 ⊢
         omega
 
-theorem sys_exec_bound {β σ : Type} : ∀ (sched : List (Nat × Action)) (ss ss' : List (Comp β σ)),
-    (∀ x ∈ ss, Good x) → sysExec ss sched = some ss' →
-    (∀ x ∈ ss', Good x) ∧ sched.length + sysMeasure ss' ≤ sysMeasure ss := by
+theorem sys_exec_rel {γ β σ : Type} {R : γ → Comp β σ → Prop} (hR : Closed R) (specs : List γ) :
+    ∀ (sched : List (Nat × Action)) (ss ss' : List (Comp β σ)), All2 R specs ss →
+    sysExec ss sched = some ss' → All2 R specs ss' ∧ sched.length + sysMeasure ss' ≤ sysMeasure ss := by
   intro sched
   induction sched with
-  | nil => intro ss ss' hg he; simp [sysExec] at he; subst he; exact ⟨hg, by simp⟩
+  | nil => intro ss ss' hrel he; simp [sysExec] at he; subst he; exact ⟨hrel, by simp⟩
   | cons ia sched ih =>
-    intro ss ss' hg he
+    intro ss ss' hrel he
     simp only [sysExec] at he
     cases hst : sysStep ss ia.1 ia.2 with
     | none => simp [hst] at he
     | some s1 =>
       simp only [hst, Option.bind_some] at he
-      obtain ⟨hg1, hm1⟩ := sys_step_inv ss s1 ia.1 ia.2 hg hst
+      obtain ⟨hg1, hm1⟩ := sys_step_rel hR specs ss s1 ia.1 ia.2 hrel hst
       obtain ⟨hg', hm'⟩ := ih s1 ss' hg1 he
       exact ⟨hg', by simp; omega⟩
 
-theorem sys_stuck_final {β σ : Type} (ss : List (Comp β σ)) (hg : ∀ x ∈ ss, Good x)
-    (hstuck : ∀ i a, sysStep ss i a = none) : ∀ x ∈ ss, x.state.final = true := by
-  intro x hx
-  obtain ⟨i, hi, hxi⟩ := List.getElem_of_mem hx
-  obtain ⟨hrep, B, f, T, hR, hI⟩ := hg x hx
-  have hget : ss[i]? = some x := by rw [List.getElem?_eq_getElem hi, hxi]
-  apply stuck_final hR x.state hI
-  intro a
-  have := hstuck i a
-  simp only [sysStep, hget] at this
-  rw [cfg_eta x.cfg hrep] at this
-  cases hst : Pair.step (cfgOf x.cfg.handle x.cfg.getCount x.cfg.unpack) x.state a with
-  | none => rfl
-  | some s' => simp [hst] at this
+theorem sys_stuck_rel {γ β σ : Type} {R : γ → Comp β σ → Prop} (hR : Closed R) : ∀ (specs : List γ)
+    (ss : List (Comp β σ)), All2 R specs ss → (∀ i a, sysStep ss i a = none) →
+    All2 (fun p x => R p x ∧ x.state.final = true) specs ss := by
+  intro specs ss hrel
+  induction hrel with
+  | nil => intro _; exact All2.nil
+  | @cons p x ps xs hpx _ ih =>
+    intro hstuck
+    refine All2.cons ⟨hpx, hR.stuck p x hpx ?_⟩ (ih ?_)
+    · intro a
+      have := hstuck 0 a
+      rw [sysStep_zero] at this
+      cases hst : Pair.step x.cfg x.state a with
+      | none => rfl
+      | some s' => simp [hst] at this
+    · intro i a
+      have := hstuck (i + 1) a
+      rw [sysStep_succ] at this
+      cases hst : sysStep xs i a with
+      | none => rfl
+      | some s' => simp [hst] at this
 
-/-! ### the initial components are good; their measure -/
+theorem forall₂_map_right {γ δ : Type} {R : γ → δ → Prop} (g : γ → δ) : ∀ (l : List γ), (∀ p ∈ l, R p (g p)) →
+    All2 R l (l.map g) := by
+  intro l
+  induction l with
+  | nil => intro _; exact All2.nil
+  | cons p l ih => intro h; exact All2.cons (h p (by simp)) (ih fun q hq => h q (by simp [hq]))
+
+theorem map_eq_of_forall₂ {γ δ ε : Type} {R : γ → δ → Prop} (g1 : δ → ε) (g2 : γ → ε) : ∀ (l : List γ) (m : List δ),
+    All2 R l m → (∀ p x, R p x → g1 x = g2 p) → m.map g1 = l.map g2 := by
+  intro l m hrel h
+  induction hrel with
+  | nil => rfl
+  | cons hpx _ ih => simp [h _ _ hpx, ih]
+
+/-! ### the components of a data phase / size phase -/
+
+/-- reachable states of the data-phase component described by `p` -/
+def GoodData (B : Nat) (p : PairSpec α) (x : Comp α (List (Call α))) : Prop :=
+  x.cfg = dataCfg p ∧ p.recvIdx.length = p.sendIdx.length ∧ Fits p.h B p.f p.sendIdx ∧
+  PInv p.h B p.f (fun k js is => rcvT p.h p.f 0 k js is)
+    (fun acc _ is js => acc ++ callsOf p.h is js = callsOf p.h p.sendIdx p.recvIdx) x.state
+
+def GoodSize (B : Nat) (p : PairSpec α) (x : Comp Nat (List Nat)) : Prop :=
+  x.cfg = sizeCfg p ∧ p.recvIdx.length = p.sendIdx.length ∧
+  PInv (sizeHandle p.h) B 1 (fun k js _ => sendT 0 k js 1)
+    (fun dst k is _ => ∃ done : List Nat, dst = done ++ List.replicate is.length 0 ∧ done.length = k ∧
+        done ++ is.map p.h.size = p.sendIdx.map p.h.size) x.state
+
+theorem goodData_closed (B : Nat) : Closed (GoodData (α := α) B) where
+  step := by
+    intro p x a s' ⟨hc, hl, hf, hI⟩ hst
+    rw [hc] at hst
+    obtain ⟨h1, h2⟩ := step_inv (dataSide p.h B p.f 0 (p.f == 0) (by simp) _) x.state s' a hI hst
+    exact ⟨⟨hc, hl, hf, h1⟩, h2⟩
+  stuck := by
+    intro p x ⟨hc, hl, hf, hI⟩ hstuck
+    rw [hc] at hstuck
+    exact stuck_final (dataSide p.h B p.f 0 (p.f == 0) (by simp) _) x.state hI hstuck
+
+theorem goodSize_closed (B : Nat) (hB : 0 < B) : Closed (GoodSize (α := α) B) where
+  step := by
+    intro p x a s' ⟨hc, hl, hI⟩ hst
+    rw [hc] at hst
+    obtain ⟨h1, h2⟩ := step_inv (sizeSide p.h B hB _) x.state s' a hI hst
+    exact ⟨⟨hc, hl, h1⟩, h2⟩
+  stuck := by
+    intro p x ⟨hc, hl, hI⟩ hstuck
+    rw [hc] at hstuck
+    exact stuck_final (sizeSide p.h B hB _) x.state hI hstuck
 
 theorem recvTracker_skip (p : PairSpec α) :
     p.recvTracker.skipZeroIndices = rcvT p.h p.f 0 0 p.recvIdx p.sendIdx := by
@@ -527,18 +647,36 @@ theorem recvTracker_skip (p : PairSpec α) :
     simp [sendT, Tracker.skipZeroIndices]
 
 theorem dataInit_good (B : Nat) (p : PairSpec α) (hl : p.recvIdx.length = p.sendIdx.length)
-    (hf : Fits p.h B p.f p.sendIdx) : Good (dataInit B p) := by
-  refine ⟨rfl, B, p.f, fun k js is => rcvT p.h p.f 0 k js is, dataSide p.h B p.f 0 (p.f == 0) (by simp), ?_⟩
-  have := init_inv (dataSide p.h B p.f 0 (p.f == 0) (by simp)) p.sendIdx p.recvIdx hl hf 0 p.recvTracker
-    (recvTracker_skip p) ([] : List (Call α))
+    (hf : Fits p.h B p.f p.sendIdx) : GoodData B p (dataInit B p) := by
+  refine ⟨rfl, hl, hf, ?_⟩
+  have := init_inv (dataSide p.h B p.f 0 (p.f == 0) (by simp) (callsOf p.h p.sendIdx p.recvIdx)) p.sendIdx p.recvIdx hl hf
+    0 p.recvTracker (recvTracker_skip p) ([] : List (Call α)) (by simp)
   simpa [dataInit, dataCfg, cfgOf, mk'_send] using this
 
 theorem sizeInit_good (B : Nat) (hB : 0 < B) (p : PairSpec α) (hl : p.recvIdx.length = p.sendIdx.length) :
-    Good (sizeInit B p) := by
-  refine ⟨rfl, B, 1, fun k js _ => sendT 0 k js 1, sizeSide p.h B hB, ?_⟩
-  have := init_inv (sizeSide p.h B hB) p.sendIdx p.recvIdx hl (sizeHandle_fits p.h B hB p.sendIdx) 0
-    (sendT 0 0 p.recvIdx 1) (sendT_skip ..) (List.replicate p.recvIdx.length 0)
+    GoodSize B p (sizeInit B p) := by
+  refine ⟨rfl, hl, ?_⟩
+  have := init_inv (sizeSide p.h B hB (p.sendIdx.map p.h.size)) p.sendIdx p.recvIdx hl
+    (sizeHandle_fits p.h B hB p.sendIdx) 0 (sendT 0 0 p.recvIdx 1) (sendT_skip ..) (List.replicate p.recvIdx.length 0)
+    ⟨[], by simp [hl], rfl, by simp⟩
   simpa [sizeInit, sizeCfg, cfgOf, mk'_send] using this
+
+/-- what a finished data-phase component has scattered -/
+theorem goodData_final_acc (B : Nat) (p : PairSpec α) (x : Comp α (List (Call α))) (hg : GoodData B p x)
+    (hfin : x.state.final = true) : x.state.acc = callsOf p.h p.sendIdx p.recvIdx := by
+  obtain ⟨_, _, _, hI⟩ := hg
+  obtain ⟨kR, isR, jsR, _, hz, hacc⟩ := final_acc x.state hI hfin
+  simpa [callsOf_allzero p.h isR jsR hz] using hacc
+
+/-- the size array a finished size-phase component has filled -/
+theorem goodSize_final_acc (B : Nat) (p : PairSpec α) (x : Comp Nat (List Nat)) (hg : GoodSize B p x)
+    (hfin : x.state.final = true) : x.state.acc = p.sendIdx.map p.h.size := by
+  obtain ⟨_, _, hI⟩ := hg
+  obtain ⟨kR, isR, jsR, _, hz, done, hd1, _, hd3⟩ := final_acc x.state hI hfin
+  rw [sizeHandle_total] at hz
+  have : isR = [] := List.eq_nil_of_length_eq_zero hz
+  subst this
+  simpa [hd1] using hd3
 
 theorem rcvT_left_le (h : Handle α) (f r k : Nat) (js is : List Nat) : (rcvT h f r k js is).indicesLeft ≤ js.length := by
   unfold rcvT; split
@@ -573,7 +711,7 @@ theorem sizeInit_measure_le (B : Nat) (hB : 0 < B) (p : PairSpec α) :
     (sizeInit B p).state.measure ≤ 3 * (p.sendIdx.length + p.recvIdx.length) + 4 := by
   have := init_measure_le (sizeHandle p.h) B 1 false unpackSizes p.sendIdx (sizeHandle_fits p.h B hB p.sendIdx)
     (sendT 0 0 p.recvIdx 1) p.recvIdx.length (by simp) (List.replicate p.recvIdx.length 0)
-  simpa [sizeInit, sizeCfg, cfgOf, mk'_send] using this
+  simpa [sizeInit, sizeCfg, mk'_send] using this
 
 theorem sysMeasure_map_le {β σ γ : Type} (g : γ → Comp β σ) (bound : γ → Nat) : ∀ (l : List γ),
     (∀ p ∈ l, (g p).state.measure ≤ bound p) → sysMeasure (l.map g) ≤ (l.map bound).sum := by
